@@ -292,7 +292,54 @@ PROPERTIES.update({
     },
 })
 
-HOOK_COMMITS = ["ffdf165", "556bbde"]
+
+
+LOOM_BUILD = {"bin": "loomcheck", "package": "loomcheck", "profile": "release",
+              "env": {"RUSTFLAGS": "--cfg memchr_verif --cfg memchr_verif=\"loom\""},
+              "target_dir": "/verif/harness/target-loom"}
+
+
+def sendsync_handler(job, tier, seed, workdir, drv):
+    """Compile probe: every public searcher/iterator type is Send + Sync."""
+    import subprocess, os, re, time
+    d = "/verif/harness/probes/sendsync"
+    env = drv.cargo_env({"CARGO_TARGET_DIR": "/verif/harness/target-probe"})
+    t0 = time.time()
+    p = subprocess.run(["cargo", "build", "--offline", "--release"], cwd=d, env=env, stdout=subprocess.PIPE, stderr=subprocess.STDOUT, text=True)
+    res = {"job": "sendsync-probe", "evaluations": 31, "states": 31, "distinct_nontrivial": 31, "histogram": {}, "samples": [
+        {"probe": "fn ss<T: Send + Sync>() instantiated for Memchr*, Finder, FinderRev, FindIter, FindRevIter, One/Two/Three and their iterators (swar, sse2, avx2), packed-pair finders, Two-Way, Rabin-Karp, Shift-Or"}],
+        "violation_count": 0, "violations": [], "machinery_errors": [], "caps_hit": [],
+        "extra": {"exhaustive": True, "nontrivial_rule": "one compile-time obligation per public type", "bounds": {"types": 31}}}
+    if p.returncode != 0:
+        if re.search(r"cannot be (sent|shared) between threads safely", p.stdout):
+            msg = [l for l in p.stdout.splitlines() if "cannot be" in l or "within `" in l][:4]
+            res["violation_count"] = 1
+            res["histogram"]["violation/not_send_sync"] = 1
+            res["violations"].append({"class": "not_send_sync", "what": "[not_send_sync] a public searcher/iterator type is no longer Send + Sync: " + " | ".join(msg),
+                                      "replay_argv": None, "detail": {"class": "not_send_sync", "compiler": p.stdout[-2000:]}})
+        else:
+            drv.log(p.stdout[-3000:])
+            drv.machinery("Send/Sync probe failed to build for another reason")
+    res["_wall_s"] = time.time() - t0
+    drv.log("  job %-28s %10d evals %8d viol  %.1fs" % (job["name"], 31, res["violation_count"], res["_wall_s"]))
+    return res, None
+
+
+PROPERTIES.update({
+    "C15": {
+        "engine": "loomcheck (loom 0.7.2)",
+        "technique": "stateless model checking of thread interleavings (loom, C11 memory model) on the real dispatch code",
+        "rule": "an execution is one complete interleaving of a multi-threaded program over the real unsafe_ifunc! cells; loom enumerates all of them (2 threads: unbounded preemptions; 3 threads: preemption bound 3) with partial-order reduction",
+        "explanation": "The real unsafe_ifunc! macro is built with loom's AtomicPtr and lazy_static (hook H4), so every execution starts in the first-call-in-the-process state and loom decides what each Relaxed load may return. Programs: 2 threads x 2 calls and 3 threads x 1-2 calls drawn from all seven dispatched routines so that first calls collide on the same cell and on different cells, with per-thread haystacks that take the scalar, SSE2 and AVX2 routes. Every return value must equal the sequential reference. The evidence reports how many executions had two threads racing through the same cell's detect (a run in which none did is a machinery error). Sharing one Finder/FinderRev and moving cloned iterators across threads is explored too, but there is no synchronisation inside a search, so loom only has thread start/finish orders to vary there; that part is complemented by a compile-time Send+Sync probe of all 31 public searcher/iterator types.",
+        "assumptions": ["loom's model of Relaxed atomics (C11) and its partial-order reduction are sound", "an engine crash (e.g. a call through a null/garbage pointer) is reported as a violation", "data races on non-atomic shared state introduced into a searcher would need a race detector (not part of the deciding step)"],
+        "jobs": [
+            {"name": "loomcheck", "build": LOOM_BUILD, "args": ["--tier", "{tier}"], "classes": None},
+            {"name": "sendsync-probe", "handler": sendsync_handler, "classes": None},
+        ],
+    },
+})
+
+HOOK_COMMITS = ["ffdf165", "556bbde", "0f24165", "8fa21ee"]
 
 ENGINES = [
     {"name": "bs", "path": "/verif/harness/checks/src/bin/bs.rs", "serves_properties": ["C01", "C02", "C05", "C07", "C14"],
@@ -303,6 +350,9 @@ ENGINES = [
 
 ENGINES.append({"name": "it", "path": "/verif/harness/checks/src/bin/it/", "serves_properties": ["C06", "C07", "C08", "C16"],
                 "kind_free_text": "explicit-state exploration (stateright 0.31) whose state is the real iterator/finder object; chain walker; history enumeration"})
+
+ENGINES.append({"name": "loomcheck", "path": "/verif/harness/loomcheck/src/main.rs", "serves_properties": ["C15"],
+                "kind_free_text": "loom exploration of all interleavings of first/subsequent calls through the real AtomicPtr dispatch cells"})
 
 NOT_CLAIMED = {}
 
